@@ -530,6 +530,7 @@ def run(res, tier):
     n5 = decomp.check(facts, res, "C11.5.lists-and-levels", ORDERINGS[0], lv["TbfDefaultLastLevel"])
     n5 += decomp.check_periodic(facts, res, "C11.5.lists-and-levels", ORDERINGS[0], lv["TbfDefaultLastLevelPeriodic"])
     res.floor("C11.5.lists-and-levels", n5, 2000, "cell pairs of the model")
+    res.instance("C11.5.lists-and-levels", "model size", "rules/decomp.py", "%d cell pairs examined (non periodic + periodic)" % n5)
     n, hits = literal_dimension(facts, res)
     res.instance("C11.2.literal-dimension", "scan", "src/", "%d shift/mask expressions examined outside ordering classes and kernels" % n)
     # positive control (expected count on a healthy tree is zero)
